@@ -559,3 +559,14 @@ impl RusticError {
         })
     }
 }
+
+#[cfg(rustic_core_verif)]
+#[allow(missing_docs, clippy::all, clippy::pedantic, clippy::nursery)]
+pub mod verif_hooks {
+    use super::*;
+
+    /// The (private) kind of an error, so that a harness can map errors to a small enum.
+    pub fn kind(err: &RusticError) -> ErrorKind {
+        err.kind
+    }
+}
